@@ -25,9 +25,12 @@ Where == <<"setUp", "test", "tearDown", "cleanup">>
 \*   dnf = testtools' own DeferredNotFired (e.g. the test called extract_result() on a Deferred nobody fired),
 \*   dnfsub = a subclass of it, spin = the Spinner's TimeoutError, nores = its NoResultError,
 \*   xfail = _ExpectedFailure, uxs = _UnexpectedSuccess, multi = MultipleExceptions(err, fail),
-\*   ki = KeyboardInterrupt, exit = SystemExit
+\*   ki = KeyboardInterrupt, exit = SystemExit,
+\*   first_fail / first_skip / first_err = twisted's FirstError (what gatherResults / DeferredList(fireOnOneErrback)
+\*   fail with) wrapping a failureException / SkipTest / another Exception: an ordinary error, NOT its inner exception
 Core    == {"fail", "err", "skip", "dnf"}            \* combined pairwise
-Special == {"dnfsub", "spin", "nores", "xfail", "uxs", "multi", "ki", "exit"}   \* one at a time
+Special == {"dnfsub", "spin", "nores", "xfail", "uxs", "multi", "ki", "exit",
+            "first_fail", "first_skip", "first_err"}                             \* one at a time
 Faults == Core \cup Special
 Beh   == {"ret", "retv"} \cup Faults                 \* return None / a value, or fault
 
@@ -68,7 +71,7 @@ Sync   == /\ pc = "direct" /\ pc' = "done"
                                    ELSE IF Cardinality(fs) > 1 THEN "same-as-direct"
                                    ELSE LET k == row[Ran(row)[CHOOSE i \in fs : TRUE]] IN
                                         CASE k = "fail" -> "addFailure" [] k = "skip" -> "addSkip"
-                                          [] k \in {"err", "dnf", "dnfsub", "spin", "nores"} -> "addError"
+                                          [] k \in {"err", "dnf", "dnfsub", "spin", "nores", "first_fail", "first_skip", "first_err"} -> "addError"
                                           [] k = "xfail" -> "addExpectedFailure" [] k = "uxs" -> "addUnexpectedSuccess"
                                           [] OTHER -> "same-as-direct"]>>
           /\ UNCHANGED <<row, via, effD>>
